@@ -62,6 +62,7 @@ type Options struct {
 	Tokens      bool
 	MempoolCfg  *cfg.MempoolConfig
 	RichBalance bool // balances large enough for confidential fees
+	AllRich     bool // every account is rich
 	RealCache   bool // keep the mempool's tx cache (4 heaps of 100k pre-sized slots and 4 never-ending goroutines per node)
 }
 
@@ -136,7 +137,7 @@ func New(t *rapid.T, o Options) *Sim {
 		default:
 			bal = E(int64(rapid.IntRange(100, 100000).Draw(t, fmt.Sprintf("bal%d", i))))
 		}
-		if o.RichBalance && i == 0 {
+		if (o.RichBalance && i == 0) || o.AllRich {
 			bal = E(1000000)
 		}
 		ga := world.GenesisAccount{Addr: a.Addr, Balance: bal, Tokens: map[common.Address]*big.Int{}}
